@@ -171,6 +171,30 @@ func c03(r *Report) {
 	}
 
 	r.Guard("C03.R1", "an upstream failure is turned into a 502 with a Warning that passes through the response modifier", func() {
+		// the synthesised response is a well-formed one for this client: it speaks the
+		// request's protocol version (Response.Write prints ProtoMajor.ProtoMinor) and
+		// inherits the request's close wish
+		if nr := r.Use("proxyutil", "NewResponse"); nr != nil && len(nr.Params) >= 3 {
+			for _, fld := range []string{"Proto", "ProtoMajor", "ProtoMinor", "Close"} {
+				ok := false
+				for _, in := range instrs(nr) {
+					st, isSt := in.(*ssa.Store)
+					if !isSt {
+						continue
+					}
+					fa, isFa := st.Addr.(*ssa.FieldAddr)
+					if !isFa || fieldObj(fa).Name() != fld || fa.X.Type().String() != "*net/http.Response" {
+						continue
+					}
+					if ld, isLd := st.Val.(*ssa.UnOp); isLd {
+						if fa2, isFa2 := ld.X.(*ssa.FieldAddr); isFa2 && fieldObj(fa2).Name() == fld && fa2.X == ssa.Value(nr.Params[2]) {
+							ok = true
+						}
+					}
+				}
+				r.Decide("flow", "M/proxyutil.NewResponse copies "+fld+" from the request", ok, "res."+fld+" = req."+fld, "a synthesised response (502, skipped round trip) does not carry the request's "+fld+": an HTTP/1.0 client is answered as 1.1 (or with the literal default), or its close wish is forgotten", nr.Pos())
+			}
+		}
 		if wf := r.Use("proxyutil", "Warning"); wf != nil {
 			warningQuoted(r, wf)
 		}
